@@ -593,7 +593,8 @@ def translate_response():
 
 TYPES_WANTED = {"ExecutorBuilder[Empty]": ["new"], "ExecutorBuilder": ["with_funds", "funds", "contract"],
                 "ExecutorBuilder[Ready]": ["new", "build"],
-                "Remote": ["new", "borrowed", "executor", "update_admin", "clear_admin"]}
+                "Remote": ["new", "borrowed", "executor", "update_admin", "clear_admin", "querier", "as_ref"],
+                "BoundQuerier": ["querier", "contract", "borrowed", "from"]}
 CTX_WANTED = {c: ["from"] for c in ("MigrateCtx", "ReplyCtx", "ExecCtx", "InstantiateCtx", "QueryCtx", "SudoCtx")}
 
 
